@@ -302,7 +302,56 @@ def _sweep(args):
         shutil.rmtree(d, ignore_errors=True)
 
 
+def _same_text_two_places(seed):
+    """the same main grammar text in two directories whose relative import resolves to different module files, opened through Lark.open / Lark(source_path=)
+    / Lark(import_paths=) in random order through ONE cache path: every instance must behave like an uncached build of its own request (finding F33, fixed)"""
+    from lark import Lark
+    from lark.exceptions import UnexpectedInput
+    logging.getLogger('lark').setLevel(logging.CRITICAL)
+    rng = random.Random(seed)
+    d = tempfile.mkdtemp(prefix='larkverif_c12_')
+    try:
+        main = 'start: X+\n%import .mod.X\n'
+        mods = {'A': 'X: "a"\n', 'B': 'X: "b"\n', 'C': 'X: /[ab]/\n'}
+        for k, v in mods.items():
+            os.mkdir(os.path.join(d, k)); open(os.path.join(d, k, 'main.lark'), 'w').write(main); open(os.path.join(d, k, 'mod.lark'), 'w').write(v)
+        cache = os.path.join(d, 'cache.bin')
+        def sig(p):
+            out = []
+            for t in ('a', 'b', 'ab', ''):
+                try: p.parse(t); out.append(True)
+                except UnexpectedInput: out.append(False)
+            return out
+        hist, fails = [], []
+        for _ in range(rng.randint(2, 6)):
+            k = rng.choice('ABC'); how = rng.choice(['open', 'open', 'source_path', 'rel_to'])
+            fn = os.path.join(d, k, 'main.lark')
+            if how == 'open':
+                p = Lark.open(fn, parser='lalr', cache=cache); q = Lark.open(fn, parser='lalr')
+            elif how == 'rel_to':
+                p = Lark.open('main.lark', rel_to=os.path.join(d, k, 'x.py'), parser='lalr', cache=cache); q = Lark.open(fn, parser='lalr')
+            else:
+                p = Lark(main, parser='lalr', source_path=fn, cache=cache); q = Lark(main, parser='lalr', source_path=fn)
+            hist.append([how, k])
+            if sig(p) != sig(q):
+                fails.append({'history': list(hist), 'module_of_this_request': mods[k], 'cached_accepts [a, b, ab, empty]': sig(p), 'uncached_accepts': sig(q)}); break
+        return {'history': hist, 'fails': fails}
+    finally:
+        shutil.rmtree(d, ignore_errors=True)
+
+
 def run(ctx, res):
+    rng0 = random.Random(ctx['seed'] * 1000003 + 1233)
+    pseeds = [rng0.randrange(1 << 30) for _ in range(tier_scale(ctx['tier'], 60, 600))]
+    for seed, (st, r) in zip(pseeds, pmap(_same_text_two_places, pseeds, chunksize=4)):
+        if st != 'ok':
+            if st == 'exc' and not exc_in_lark(r):
+                raise InfraError(r)
+            res.violation('constructing through the cache raised', {'seed': seed, 'detail': r}); continue
+        res.case(['same_text_two_places', r['history']], nontrivial=len(r['history']) > 1)
+        res.count('same_text_in_several_places_histories')
+        for f in r['fails']:
+            res.violation('the same grammar text read from another place (its relative import resolves to another file) is served the cached parser of the first place', f)
     for st, r in pmap(_other_versions, [0], procs=1):
         if st != 'ok':
             if st == 'exc' and not exc_in_lark(r):
